@@ -797,6 +797,9 @@ class PythonPrimitiveToStoneDecoder:
         Searches through the JSON-object-compatible dict using the data type
         definition to determine which of the enumerated subtypes `obj` is.
         """
+        if not isinstance(obj, dict):
+            raise bv.ValidationError('expected object, got %s' %
+                                     bv.generic_type_name(obj))
         if '.tag' not in obj:
             raise bv.ValidationError("missing '.tag' key")
         if not isinstance(obj['.tag'], str):
@@ -884,7 +887,8 @@ class PythonPrimitiveToStoneDecoder:
             else:
                 try:
                     ret = base64.b64decode(val)
-                except (TypeError, binascii.Error):
+                except (TypeError, ValueError, binascii.Error):
+                    # ValueError: a string with non-ASCII characters.
                     raise bv.ValidationError('invalid base64-encoded bytes')
         elif isinstance(data_type, bv.Void):
             if self.strict and val is not None:
